@@ -336,6 +336,14 @@ func (w *World) exec(o Op) string {
 		default:
 			b = w.store.NewBatch()
 		}
+		if ib, ok := b.(db.IndexedBatch); ok && o.Idx {
+			switch o.Wrap {
+			case "sync":
+				b = db.NewSyncBatch(ib)
+			case "buffer":
+				b = db.NewBufferBatch(ib)
+			}
+		}
 		w.batches = append(w.batches, b)
 		return "h:" + strconv.Itoa(len(w.batches)-1)
 	case "bput", "bdel", "bdelrange", "bsize", "bwrite", "bclose":
